@@ -106,7 +106,7 @@ func (r *srcReader) Read(p []byte) (int, error) {
 		r.w.sim.Yield("harness:src-chunk")
 	}
 	if r.failAt > 0 && r.pos >= r.failAt {
-		r.w.res.Faults["src_fail"]++
+		r.w.res.fault("src_fail")
 		return 0, errSrc
 	}
 	if r.pos >= len(r.data) {
@@ -130,6 +130,8 @@ func (r *srcReader) Read(p []byte) (int, error) {
 func (w *cacheWorld) key(i int) cache.CacheKey { return w.keys[i] }
 
 func (w *cacheWorld) begin(a, i int, op COp) *cev {
+	resMu.Lock()
+	defer resMu.Unlock()
 	w.seq++
 	e := &cev{Actor: a, Idx: i, Op: op, Call: w.seq, CallStep: w.sim.Steps, CallT: time.Now()}
 	w.hist = append(w.hist, e)
@@ -137,6 +139,8 @@ func (w *cacheWorld) begin(a, i int, op COp) *cev {
 }
 
 func (w *cacheWorld) end(e *cev, err error) {
+	resMu.Lock()
+	defer resMu.Unlock()
 	w.seq++
 	e.Ret = w.seq
 	e.RetStep = w.sim.Steps
@@ -182,7 +186,7 @@ func (w *cacheWorld) readEntry(e *cev, ent *cache.Entry[CMeta], rchunk int, read
 				e.ReadErr = errors.New("zero-length read without error")
 				break
 			}
-			w.res.Probes["reader_between_chunks"]++
+			w.res.probe("reader_between_chunks")
 			w.sim.Yield("harness:read-chunk")
 		}
 	}
@@ -199,7 +203,7 @@ func (w *cacheWorld) exec(a, i int, op COp) {
 		if !op.Empty {
 			data = body(op.Key, op.Ver, op.Size)
 		} else {
-			w.res.Faults["src_empty"]++
+			w.res.fault("src_empty")
 		}
 		undo := w.armDiskFault(op)
 		src := &srcReader{w: w, data: data, chunk: op.Chunk, failAt: op.FailAt}
@@ -214,7 +218,7 @@ func (w *cacheWorld) exec(a, i int, op COp) {
 		e := w.begin(a, i, op)
 		if op.DiskFault == "vanish" && w.p.Backend == "file" {
 			if os.Remove(filepath.Join(w.dir, "cache", w.key(op.Key).Hex)) == nil {
-				w.res.Faults["disk_vanish"]++
+				w.res.fault("disk_vanish")
 			}
 		}
 		ent, err := w.c.Get(w.key(op.Key))
@@ -269,14 +273,14 @@ func (w *cacheWorld) armDiskFault(op COp) func() {
 			return func() {}
 		}
 		if os.Mkdir(path, 0o755) == nil {
-			w.res.Faults["disk_create_fails"]++
+			w.res.fault("disk_create_fails")
 			return func() { os.Remove(path) }
 		}
 	case "fsize":
 		// the kernel refuses to grow any file beyond DiskAt bytes: a short write followed by EFBIG
 		if op.DiskAt > 0 {
 			restore := setFsizeLimit(uint64(op.DiskAt))
-			w.res.Faults["disk_short_write"]++
+			w.res.fault("disk_short_write")
 			return restore
 		}
 	}
@@ -348,7 +352,7 @@ func runCachePlan(t *testing.T, planAny any, ctl Ctl) *Result {
 	var snaps []*cacheSnapshot
 	bubble(t, res, func() {
 		metrics.Global = metrics.NewMetrics()
-		s := zzsim.New(ctl.Seed, p.Pol)
+		s := zzsim.New(ctl.Seed, racePol(p.Pol))
 		if ctl.Replay != nil {
 			s.SetReplay(ctl.Replay, ctl.Guided)
 		}
